@@ -41,7 +41,8 @@ Definition table_facts : bool :=
   && negb (is_sign L_) && takes_arg PLUS L_ && negb (takes_arg MINUS L_)
   && forallb (fun f => negb (is_sign f) && negb (takes_arg PLUS f) && negb (takes_arg MINUS f) && negb (mem f gen.T10.SETMODES)) FLAGS
   && negb (mem K_ gen.T10.SETMODES) && negb (mem L_ gen.T10.SETMODES)
-  && forallb (fun f => mem f gen.T10.SETMODES) [O_; H_; V_; B_].
+  && forallb (fun f => mem f gen.T10.SETMODES) [O_; H_; V_; B_]
+  && forallb (fun f => negb (is_sign f) && takes_arg PLUS f && takes_arg MINUS f && mem f gen.T10.SETMODES) LIST_MODES.
 Lemma table_facts_ok : table_facts = true.
 Proof. vm_compute. reflexivity. Qed.
 
@@ -66,6 +67,7 @@ Inductive okchg (ch0 : schan) : chg -> Prop :=
 | ok_h p a : is_member a ch0 = true -> okchg ch0 (p, H_, Some a)
 | ok_v p a : is_member a ch0 = true -> okchg ch0 (p, V_, Some a)
 | ok_b p a : okchg ch0 (p, B_, Some a)
+| ok_list p f a : mem f LIST_MODES = true -> okchg ch0 (p, f, Some a)
 | ok_k p a : okchg ch0 (p, K_, Some a)
 | ok_l a : okchg ch0 (true, L_, Some a)
 | ok_l0 : okchg ch0 (false, L_, None)
@@ -75,17 +77,18 @@ Proof.
   destruct g as [[p f] [a|]]; cbn [mode_ok]; intro H.
   - apply andb_true_iff in H as [_ H]. destruct (mem f [O_; H_; V_]) eqn:E.
     + destruct (mem3 _ _ _ _ E) as [E1|[E1|E1]]; subst f; constructor; exact H.
-    + repeat (apply orb_true_iff in H as [H|H]).
-      * apply N.eqb_eq in H. subst f. constructor.
-      * apply N.eqb_eq in H. subst f. apply ok_k.
-      * apply andb_true_iff in H as [H Hp]. apply N.eqb_eq in H. subst f p. apply ok_l.
+    + repeat (apply orb_true_iff in H as [H|H]);
+        first [ discriminate
+              | apply andb_true_iff in H as [H Hp]; apply N.eqb_eq in H; subst f p; apply ok_l
+              | apply N.eqb_eq in H; subst f; first [apply ok_b | apply ok_k | apply ok_list; reflexivity] ].
   - apply orb_true_iff in H as [H|H].
     + apply ok_flag. exact H.
     + apply andb_true_iff in H as [H Hp]. apply N.eqb_eq in H. apply negb_true_iff in Hp. subst f p. apply ok_l0.
 Qed.
 Lemma okchg_shape ch0 g : okchg ch0 g -> chg_shape g = true.
 Proof.
-  intro H. destruct H; try (destruct p; reflexivity); try reflexivity.
+  intro H. destruct H; try (destruct p; reflexivity); try reflexivity;
+    try (destruct (mem3 _ _ _ _ H) as [E|[E|E]]; subst f; destruct p; reflexivity).
   destruct (flag_facts f H) as [A [B [C _]]]. unfold chg_shape. rewrite A. destruct p; cbn [sign]; [rewrite B|rewrite C]; reflexivity.
 Qed.
 
@@ -103,7 +106,7 @@ Lemma member_apply_mode ch g x : is_member x (apply_mode ch g) = is_member x ch.
 Proof.
   destruct g as [[p f] [a|]]; cbn [apply_mode]; [|reflexivity].
   destruct (N.eqb f O_); [apply member_upd_flags|]. destruct (N.eqb f H_); [apply member_upd_flags|].
-  destruct (N.eqb f V_); [apply member_upd_flags|]. destruct (N.eqb f B_); reflexivity.
+  destruct (N.eqb f V_); [apply member_upd_flags|]. destruct (N.eqb f B_); [reflexivity|]. destruct (mem f LIST_MODES); reflexivity.
 Qed.
 
 Lemma cm1_other bc p f v : mem f gen.T10.SETMODES = false ->
@@ -122,6 +125,8 @@ Proof. destruct p; reflexivity. Qed.
 Lemma cm1_b bc p v : chan_mode1 bc (sign p, B_, v)
   = set_bans bc (if p then iset_add (mval_str v) (c_bans bc) else iset_discard (mval_str v) (c_bans bc)).
 Proof. destruct p; reflexivity. Qed.
+Lemma cm1_list bc p f v : mem f LIST_MODES = true -> chan_mode1 bc (sign p, f, v) = bc.
+Proof. intro H. destruct (mem3 _ _ _ _ H) as [E|[E|E]]; subst f; destruct p; reflexivity. Qed.
 Lemma rel_modes_letter ch bc (p : bool) f a :
   chan_rel ch bc ->
   chan_rel (set_modes_s ch (if p then assoc_set f a (sc_modes ch) else assoc_del f (sc_modes ch)))
@@ -189,6 +194,8 @@ Proof.
     rewrite cm1_b, (canonical_coerce a Hcan).
     constructor; cbn [c_users c_ops c_halfops c_voices c_bans c_topic c_modes c_created set_bans sc_bans set_bans_s]; try assumption.
     intro x. destruct p; [rewrite !iset_mem_add, E|rewrite !iset_mem_discard, E]; reflexivity.
+  - (* I / e / q: neither side records anything *)
+    destruct (mem3 _ _ _ _ H0) as [E1|[E1|E1]]; subst f; destruct p; exact R0.
   - (* k *) change (apply_mode ch (p, K_, Some a)) with (set_modes_s ch (if p then assoc_set K_ (Some a) (sc_modes ch) else assoc_del K_ (sc_modes ch))).
     rewrite cm1_other by reflexivity. apply (rel_modes_letter ch bc p K_ (Some a) R0).
   - (* +l *) change (apply_mode ch (true, L_, Some a)) with (set_modes_s ch (assoc_set L_ (Some a) (sc_modes ch))).
@@ -219,7 +226,8 @@ Proof.
 Qed.
 Lemma modes_wf_apply ch0 ch g : modes_wf ch -> okchg ch0 g -> canon_chg g = true -> modes_wf (apply_mode ch g).
 Proof.
-  intros W Hok Hcan. destruct Hok; cbn [canon_chg snd] in Hcan; try exact W.
+  intros W Hok Hcan. destruct Hok; cbn [canon_chg snd] in Hcan; try exact W;
+    try (destruct (mem3 _ _ _ _ H) as [E|[E|E]]; subst f; exact W).
   - change (apply_mode ch (p, K_, Some a)) with (set_modes_s ch (if p then assoc_set K_ (Some a) (sc_modes ch) else assoc_del K_ (sc_modes ch))).
     destruct p; [apply modes_wf_set; [exact W|apply letter_ok_k; exact Hcan]|apply modes_wf_del; exact W].
   - change (apply_mode ch (true, L_, Some a)) with (set_modes_s ch (assoc_set L_ (Some a) (sc_modes ch))).
